@@ -263,7 +263,11 @@ where
             // check for termination due to slow progress and update strategy
             if isdone{
                     match self.strategy_checkpoint_insufficient_progress(scaling){
-                        StrategyCheckpoint::NoUpdate | StrategyCheckpoint::Fail => {break}
+                        StrategyCheckpoint::NoUpdate => {break}
+                        // the previous iterate has been restored, so the last
+                        // step is void.  Zeroing α reports the restored iterate
+                        // in a final status line, as for the other failed steps
+                        StrategyCheckpoint::Fail => {α = T::zero(); break}
                         StrategyCheckpoint::Update(s) => {scaling = s; continue}
                     }
             }  // allows continuation if new strategy provided
